@@ -497,10 +497,12 @@ partial def loop (inp : IO.FS.Stream) (out : IO.FS.Stream) (s : St) : IO Unit :=
        "new " ++ slot, ["new", slot])
     | "pfail" :: k :: rest =>
       -- the k-th store load of the following operation fails (object-level model only)
-      ({ s with p := { s.p with failNext := k.toNat? } }, " ".intercalate rest, rest)
+      ({ s with p := { s.p with failNext := k.toNat?, faulted := true } }, " ".intercalate rest, rest)
     | _ => (s, line, toks)
   match pcommand s.p toks with
   | some (p', resp) =>
+    -- `pgraph` also reports whether the two models denote the same trees
+    let resp := if toks == ["pgraph"] then resp ++ " X:" ++ pcross s.p s.trees else resp
     out.putStrLn resp
     out.flush
     loop inp out { s with p := p' }
